@@ -91,3 +91,13 @@ Qed.
 From UsimGen Require SourcePins Pin_C07.
 Theorem C07_modelled_source_unchanged : forallb SourcePins.pin_ok Pin_C07.pins = true.
 Proof. exact Pin_C07.src_unchanged. Qed.
+
+(** ** known finding D4b: for a connective that is false on entry the notification never fires; witness on the faithful
+    machine (the implementation shows the same trace): flag0 is set at time 1, the block is left at 5 *)
+From Coq Require Import ZArith.
+From Usim Require Refuted.
+Theorem C07_until_fires_for_every_notification_refuted :
+  exists s, In [1; 1; 4]%Z (Scenario.run_scenario 6000 200000 s) /\ In [5; 1; 2]%Z (Scenario.run_scenario 6000 200000 s) /\
+            In [5; 1; 3]%Z (Scenario.run_scenario 6000 200000 s).
+Proof. exact Refuted.until_connective_never_fires_refuted. Qed.
+Print Assumptions C07_until_fires_for_every_notification_refuted.
